@@ -250,6 +250,8 @@ def check_case(case, obs):
                 want = den.add(r[1], r[2])
             else:
                 a, d = den.divide(r[1], r[2])
+                if d is None:     # cross-family request (weeks in a month ...): no independent denominator, no claim
+                    continue
                 want = [a, d]
         except DenErr as e:
             want = Err(e.kind)
